@@ -109,7 +109,7 @@ impl Property for C19 {
     }
     fn runs(&self, tier: &str) -> u64 {
         if tier == "thorough" {
-            60_000
+            150_000
         } else {
             4_000
         }
